@@ -462,3 +462,22 @@ Print Assumptions C16_response_in_range_partial.
 Print Assumptions C16_response_nonvacuous.
 Print Assumptions C16_response_nonvacuous_idempotent.
 Print Assumptions C16_response_nonvacuous_local.
+
+(* ---------- from the TEXT to the response ----------
+   For every text that is the print of printable lexemes (Model/Unlex.v) whose tokens form a file of the grammar:
+   no lexical error, no syntax diagnostic, and the diagnostics response of the parsed tree consists of the analysers'
+   findings only: the rule items are, as a multiset, one per declaration satisfying its rule (C16_lints_exact lifted),
+   the unused-variable items are exactly the specification's list (C15).  Lexer round trip + file theorem + the
+   assembled response on one object. *)
+From GoldV Require Import Keywords Strings PComb Grammar RTComb ExprRT StmtRT DeclRT FileRT Unlex TextLevelDiag.
+
+Theorem C16_response_of_text : forall lx f ns, forallb printable lx = true -> Decls f (fst (lex (unlex lx))) ns ->
+  snd (lex (unlex lx)) = [] /\
+  exists root, fst (parse_gold (fst (lex (unlex lx)))) = Ok [] root /\
+               cdiags (snd (parse_gold (fst (lex (unlex lx))))) = [] /\
+               nchildren root = ns /\
+               Permutation (report root []) (map of_uv (UnusedVar.analyze_today root) ++ map of_lint (lints_spec root)) /\
+               filter is_unused_item (report root []) = map of_uv (UnusedVarProofs.unused_spec root).
+Proof. exact response_of_text. Qed.
+
+Print Assumptions C16_response_of_text.
